@@ -64,6 +64,10 @@ pub struct ReqScript {
     /// client delay in ms; None = never answers
     pub delay_ms: Option<u32>,
     pub resp: Resp,
+    /// cancel only: re-use the client order id of an earlier cancel request (selector), i.e. cancel
+    /// the same order again after the earlier cancel was answered or timed out
+    #[serde(default)]
+    pub retry_of: Option<u8>,
 }
 
 #[derive(Debug, Clone, Serialize, Deserialize)]
@@ -98,8 +102,8 @@ pub struct Received {
 
 #[derive(Debug, Clone, Default)]
 pub struct ScriptClientConfig {
-    /// keyed by (is_open, cid)
-    pub behaviours: Arc<Mutex<HashMap<(bool, String), Behaviour>>>,
+    /// keyed by (is_open, cid): one behaviour per request with that id, in send order
+    pub behaviours: Arc<Mutex<HashMap<(bool, String), std::collections::VecDeque<Behaviour>>>>,
     pub received: Arc<Mutex<Vec<Received>>>,
 }
 
@@ -108,7 +112,7 @@ pub struct ScriptClient(pub ScriptClientConfig);
 
 impl ScriptClient {
     fn behaviour(&self, open: bool, cid: &ClientOrderId) -> Behaviour {
-        self.0.behaviours.lock().unwrap().get(&(open, cid.0.to_string())).cloned().expect("scripted behaviour for every request")
+        self.0.behaviours.lock().unwrap().get_mut(&(open, cid.0.to_string())).and_then(|q| q.pop_front()).expect("scripted behaviour for every request")
     }
 }
 
@@ -183,7 +187,7 @@ impl ExecutionClient for ScriptClient {
 
 pub struct ManagerExactlyOnce;
 
-fn req_script() -> impl Strategy<Value = (bool, u8, u32, Option<u32>, Resp)> {
+fn req_script() -> impl Strategy<Value = (bool, u8, u32, Option<u32>, Resp, Option<u8>)> {
     (
         prop::bool::weighted(0.65),
         any::<u8>(),
@@ -194,6 +198,7 @@ fn req_script() -> impl Strategy<Value = (bool, u8, u32, Option<u32>, Resp)> {
             2 => Just(Resp::ErrAsset),
             1 => Just(Resp::ErrConn),
         ],
+        prop::option::weighted(0.4, any::<u8>()),
     )
 }
 
@@ -211,7 +216,7 @@ impl Check for ManagerExactlyOnce {
                 let t = timeout_ms as u64;
                 let requests = reqs
                     .into_iter()
-                    .map(|(open, inst_sel, send_pm, delay_pm, resp)| {
+                    .map(|(open, inst_sel, send_pm, delay_pm, resp, retry_of)| {
                         let send_ms = (send_pm as u64 * 3 * t / 3000) as u32;
                         let delay_ms = delay_pm.map(|pm| {
                             let mut d = (pm as u64 * 2 * t / 2000) as u32;
@@ -221,7 +226,7 @@ impl Check for ManagerExactlyOnce {
                             }
                             d
                         });
-                        ReqScript { open, inst_sel, send_ms, delay_ms, resp }
+                        ReqScript { open, inst_sel, send_ms, delay_ms, resp, retry_of }
                     })
                     .collect();
                 ManagerCase { defs, exchange_sel, timeout_ms, requests }
@@ -255,19 +260,36 @@ impl Check for ManagerExactlyOnce {
             delay_ms: Option<u64>,
             resp: Resp,
             quote_asset: barter_instrument::asset::AssetIndex,
+            /// how many earlier requests carry the same (kind, client order id)
+            nth: usize,
         }
         let mut reqs: Vec<R> = Vec::new();
         let config = ScriptClientConfig::default();
         for (n, r) in case.requests.iter().enumerate() {
-            let ins = own[r.inst_sel as usize % own.len()];
-            let cid = ClientOrderId::new(format!("c{n}"));
+            let mut ins = own[r.inst_sel as usize % own.len()];
+            let mut cid = ClientOrderId::new(format!("c{n}"));
             let mut delay = r.delay_ms.map(|d| d as u64);
             if delay == Some(timeout as u64) {
                 delay = Some(timeout as u64 + 1);
             }
+            let mut send_ms = r.send_ms as u64;
+            let mut nth = 0;
+            // a repeated cancel: same order (id, instrument), sent once the previous cancel for it
+            // has been answered or has timed out
+            let earlier_cancels: Vec<usize> = (0..reqs.len()).filter(|i| !reqs[*i].open).collect();
+            if let (false, Some(sel), false) = (r.open, r.retry_of, earlier_cancels.is_empty()) {
+                let first = &reqs[earlier_cancels[(sel as usize * earlier_cancels.len()) >> 8]];
+                cid = first.cid.clone();
+                ins = own.iter().copied().find(|i| i.key == first.inst).expect("own instrument");
+                let chain: Vec<&R> = reqs.iter().filter(|q| !q.open && q.cid == cid).collect();
+                nth = chain.len();
+                let last = chain[nth - 1];
+                let resolved = last.send_ms + last.delay_ms.map_or(timeout as u64, |d| d.min(timeout as u64));
+                send_ms = send_ms.max(resolved + 1);
+            }
             let asset_name = indexed.assets()[ins.value.underlying.quote.index()].value.asset.name_exchange.clone();
-            config.behaviours.lock().unwrap().insert((r.open, cid.0.to_string()), Behaviour { delay_ms: delay.map(|d| d as u32), resp: r.resp, asset_name });
-            reqs.push(R { open: r.open, inst: ins.key, name: ins.value.name_exchange.clone(), cid, send_ms: r.send_ms as u64, delay_ms: delay, resp: r.resp, quote_asset: ins.value.underlying.quote });
+            config.behaviours.lock().unwrap().entry((r.open, cid.0.to_string())).or_default().push_back(Behaviour { delay_ms: delay.map(|d| d as u32), resp: r.resp, asset_name });
+            reqs.push(R { open: r.open, inst: ins.key, name: ins.value.name_exchange.clone(), cid, send_ms, delay_ms: delay, resp: r.resp, quote_asset: ins.value.underlying.quote, nth });
         }
         let mut order: Vec<usize> = (0..reqs.len()).collect();
         order.sort_by_key(|i| (reqs[*i].send_ms, *i));
@@ -334,11 +356,12 @@ impl Check for ManagerExactlyOnce {
         let received = config.received.lock().unwrap().clone();
         for r in &reqs {
             let hits: Vec<_> = received.iter().filter(|x| x.open == r.open && x.cid == r.cid).collect();
-            if hits.len() != 1 {
-                bad!("client-delivery", "client received request {}/{} {} times", if r.open { "open" } else { "cancel" }, r.cid, hits.len());
+            let sent = reqs.iter().filter(|q| q.open == r.open && q.cid == r.cid).count();
+            if hits.len() != sent {
+                bad!("client-delivery", "client received request {}/{} {} times, it was sent {sent} time(s)", if r.open { "open" } else { "cancel" }, r.cid, hits.len());
             }
-            if hits[0].exchange != ex_id || hits[0].instrument != r.name {
-                bad!("client-address", "request for {} ({}) reached the client addressed to ({}, {}), expected ({ex_id}, {})", r.inst, r.cid, hits[0].exchange, hits[0].instrument, r.name);
+            if hits[r.nth].exchange != ex_id || hits[r.nth].instrument != r.name {
+                bad!("client-address", "request for {} ({}) reached the client addressed to ({}, {}), expected ({ex_id}, {})", r.inst, r.cid, hits[r.nth].exchange, hits[r.nth].instrument, r.name);
             }
         }
         if received.len() != reqs.len() {
@@ -362,14 +385,17 @@ impl Check for ManagerExactlyOnce {
                     _ => false,
                 })
                 .collect();
-            let what = format!("{} {} (send {} ms, delay {:?} ms, timeout {} ms, {:?})", if r.open { "open" } else { "cancel" }, r.cid, r.send_ms, r.delay_ms, timeout, r.resp);
-            if mine.is_empty() {
-                bad!("request-unanswered", "no account event for {what}");
+            let sent = reqs.iter().filter(|q| q.open == r.open && q.cid == r.cid).count();
+            let what = format!("{} {} (request {} of {sent} with that id, send {} ms, delay {:?} ms, timeout {} ms, {:?})", if r.open { "open" } else { "cancel" }, r.cid, r.nth + 1, r.send_ms, r.delay_ms, timeout, r.resp);
+            if mine.len() <= r.nth {
+                bad!("request-unanswered", "no account event for {what}: {} event(s) carry that id", mine.len());
             }
-            if mine.len() > 1 {
-                bad!("request-answered-twice", "{} account events for {what}: {mine:?}", mine.len());
+            if mine.len() > sent {
+                bad!("request-answered-twice", "{} account events for {sent} request(s) {what}: {mine:?}", mine.len());
             }
-            let (at, ev) = mine[0];
+            // requests with one id are sent one after the other's resolution: the n-th event is
+            // the n-th request's
+            let (at, ev) = mine[r.nth];
             let responded = r.delay_ms.is_some_and(|d| d < timeout as u64);
             let due = r.send_ms + r.delay_ms.map_or(timeout as u64, |d| d.min(timeout as u64));
             expected_instants.push((due, i));
@@ -450,17 +476,19 @@ impl Check for ManagerExactlyOnce {
         rep.class_if(max_outstanding >= 3, "three_or_more_outstanding");
         rep.class_if(ex_idx.index() > 0, "manager_of_non_first_exchange");
         rep.class_if(reqs.iter().any(|r| r.delay_ms.is_none()), "client_never_answers");
+        rep.class_if(reqs.iter().any(|r| r.nth > 0), "cancel_repeated_for_same_order");
+        rep.class_if(reqs.iter().any(|r| r.nth > 0 && reqs.iter().any(|q| !q.open && q.cid == r.cid && q.nth + 1 == r.nth && !q.delay_ms.is_some_and(|d| d < timeout as u64))), "cancel_repeated_after_timeout");
         rep.nontrivial = max_outstanding >= 3 && timeouts > 0 && responses > 0 && out_of_send_order;
         rep
     }
 }
 
 pub fn run(ctx: &mut Ctx) {
-    ctx.rule = "manager_exactly_once: 2..3 exchanges, the manager serves a generated one; timeout T in [10 ms, 5 s]; 1..16|32 requests (65% open, 35% cancel) with send offsets in [0,3T], client delay in [0,2T] or never (15%), |delay - T| >= 1 ms; responses: ok (open with fill 0..4 of 4, i.e. incl. fully filled), rejected naming an asset of the exchange, connectivity error. Run under tokio's paused clock. non-trivial = >= 3 requests outstanding at once AND >= 1 timeout AND >= 1 in-time response AND at least one answer out of send order; distinct by hash of the case.".into();
+    ctx.rule = "manager_exactly_once: 2..3 exchanges, the manager serves a generated one; timeout T in [10 ms, 5 s]; 1..16|32 requests (65% open, 35% cancel; 40% of the cancels repeat an earlier cancel's order id once that one is resolved) with send offsets in [0,3T], client delay in [0,2T] or never (15%), |delay - T| >= 1 ms; responses: ok (open with fill 0..4 of 4, i.e. incl. fully filled), rejected naming an asset of the exchange, connectivity error. Run under tokio's paused clock. non-trivial = >= 3 requests outstanding at once AND >= 1 timeout AND >= 1 in-time response AND at least one answer out of send order; distinct by hash of the case.".into();
     ctx.assumptions = vec![
         "tokio test-util paused clock: virtual time advances only when every task is idle".into(),
         "client responses name assets/instruments known to the exchange's map (an un-indexable response is filtered by design and out of scope)".into(),
-        "one request per (kind, client order id)".into(),
+        "client order ids are unique per open request; a cancel may be repeated for the same order only after the previous cancel for it was answered or timed out (>= 1 ms later)".into(),
         "'eventually resolved' is decided as bounded: by send + timeout".into(),
     ];
     ctx.run_regressions::<ManagerExactlyOnce>();
